@@ -49,7 +49,7 @@ class SpecModule:
         self.classes, self.functions, self.assigns, self.imports, self.star_imports = {}, {}, {}, {}, []
         d = os.path.join(VERIF, 'specs')
         for fn in sorted(os.listdir(d)):
-            if fn.endswith('.py') and fn != '__init__.py':
+            if fn.endswith('.py') and fn not in ('__init__.py', 'native.py'):
                 m = ModuleInfo(os.path.join(d, fn), 'specs.' + fn[:-3], repo)
                 m.relpath = 'verif/specs/' + fn
                 for k, v in m.functions.items():
@@ -135,6 +135,8 @@ class ObResult:
         self.tainted_refutation = False
         self.reason = ''
         self.sample = None
+        self.witness = None
+        self.witness_error = None
 
 
 class ContractResult:
@@ -212,6 +214,7 @@ def verify(env, c, thorough=False):
         for src in c.requires:
             p.assume(I.formula_src(src, pre))
         old = Frame(fi, fi.module, {k: snapshot(v) for k, v in fr_locals.items()})
+        p.inputs = old.locals
         fv = FuncVal(fi, None, fi.cls)
         args = []
         kwargs = {}
@@ -299,6 +302,15 @@ def verify(env, c, thorough=False):
                 o.tainted_refutation = False
                 if o.model is None:
                     o.model = r.model
+                    o.witness = None
+                    o.witness_error = None
+                    if r.model_ref is not None:
+                        try:
+                            from .witness import concretize
+                            inputs = paths[ob.path_id].inputs
+                            o.witness = {k: concretize(r.model_ref, v) for k, v in inputs.items()}
+                        except Exception as e:
+                            o.witness_error = f'{type(e).__name__}: {e}'
         elif r.verdict == 'unknown':
             if o.verdict == 'unsat':
                 o.verdict = 'unknown'
